@@ -36,6 +36,6 @@ json.dump(dict(property=ID, name=N, repo_commit=head, verif_commit_at_least=vhea
                confirmed=dict(tests_with_patch=T.strip(), demo_pristine_exit=int(P0), demo_patched_exit=int(P1),
                               how="scratch git worktree of /repo HEAD: demo.py; git apply patch.diff; pytest; demo.py"),
                ran=f"./bin/check {ID} quick against the patched tree (VERIF_REPO=<worktree>; equivalent to git -C /repo apply patch.diff; ./bin/check {ID} quick; git -C /repo checkout -- .)",
-               detected=bool(int(V)), check_output=OUT[-600:]), open(os.path.join(S, 'meta.json'), 'w'), indent=1)
+               detected=bool(int(V)), check_output=OUT[-600:]), open(os.path.join(S, 'meta.json' if os.environ.get('VERIF_SEED', '0') in ('', '0') else f"meta-seed{os.environ['VERIF_SEED']}.json"), 'w'), indent=1)
 PY
 done
